@@ -287,6 +287,37 @@ def readIndex (s : Str) : Option IndexDesc :=
     | _ => none
   | _ => none
 
+/-- what a reader of the DDL learns from one `COMMENT ON` statement -/
+structure CommentDesc where
+  /-- `TABLE` or `COLUMN` -/
+  entity : Str
+  /-- the quoted names, dot-separated in the text -/
+  path : List Str
+  /-- the text between the single quotes -/
+  text : Str
+  deriving DecidableEq, Repr
+
+def readCommentTail (ent : Str) (path : List Str) (s : Str) : Option CommentDesc :=
+  match stripKw (lit " IS '") s with
+  | (true, t) => (C03.stripSuffix? (lit "';") t).map fun x => ⟨ent, path, x⟩
+  | _ => none
+
+/-- the reader of one `COMMENT ON TABLE "t" IS '…';` / `COMMENT ON COLUMN "t"."c" IS '…';` -/
+def readCommentOn (s : Str) : Option CommentDesc :=
+  match stripKw (lit "COMMENT ON ") s with
+  | (true, s1) =>
+    match s1.dropWhile (· != ' ') with
+    | ' ' :: s2 =>
+      match readQuoted s2 with
+      | some (n1, '.' :: s3) =>
+        match readQuoted s3 with
+        | some (n2, s4) => readCommentTail (s1.takeWhile (· != ' ')) [n1, n2] s4
+        | none => none
+      | some (n1, s3) => readCommentTail (s1.takeWhile (· != ' ')) [n1] s3
+      | none => none
+    | _ => none
+  | _ => none
+
 end C04
 end PyDBML
 
